@@ -12,9 +12,9 @@ func init() {
 		return alg.RunPairing(alg.Config{Prop: o.prop, In: o.in, Seed: o.seed, Bindings: o.bindings, Max: o.max}, res)
 	}
 	drivers["pickembed"] = func(o opts, res *core.Result) error {
-		pc := alg.Config{Prop: o.prop, In: o.in, Seed: o.seed, Max: o.max, MaxSlow: o.maxslow, Groups: o.groups}
+		pc := alg.Config{Prop: o.prop, In: o.in, Seed: o.seed, Max: o.max, MaxSlow: o.maxslow, Groups: o.groups, LastOp: o.lastop}
 		err := alg.RunPickEmbed(pc, res)
-		if err == nil && o.groups == "" {
+		if err == nil && o.groups == "" && o.lastop == "" {
 			alg.DataRange(pc, res, 400)
 		}
 		return err
